@@ -1,6 +1,7 @@
-(* Proofs about the Alephium watcher model (C08 / C09). *)
+(* C09: proofs over model.AlphWatcher that depend on the extracted page-loop exit test, the treatment of unconvertible events
+   and the nil tests of GetTokenInfo (the flag-independent part is in AlphWatcherBase). *)
 From Coq Require Import List ZArith Bool Lia Arith.
-From WH Require Import gen.Extracted model.AlphWatcher.
+From WH Require Import gen.Extracted model.AlphWatcher proofs.AlphWatcherBase.
 Import ListNotations.
 Open Scope Z_scope.
 
@@ -28,29 +29,12 @@ Proof.
   destruct (to_bytevec v); [|discriminate]. destruct (to_bytevec v0); [|discriminate]. destruct (to_uint8 v1); discriminate.
 Qed.
 
-Lemma tokinfo_eqb_eq : forall a b, tokinfo_eqb a b = true -> a = b.
-Proof.
-  intros [a1 a2 a3 a4] [b1 b2 b3 b4]. unfold tokinfo_eqb. cbn [ti_id ti_dec ti_sym ti_name]. intro H.
-  apply andb_prop in H as [H H4]. apply andb_prop in H as [H H3]. apply andb_prop in H as [H1 H2].
-  apply Z.eqb_eq in H1, H2, H3, H4. subst. reflexivity.
-Qed.
-
 Lemma validate_attest_no_panic : forall m a, validate_attest m a <> VaPanic.
 Proof.
   intros m a. unfold validate_attest. destruct (m_tok m) as [ti|]; [|discriminate].
   pose proof (get_token_info_no_panic (ti_id ti) a) as P.
   destruct (get_token_info (ti_id ti) a) as [t| |]; try discriminate; try congruence.
   destruct (tokinfo_eqb ti t); discriminate.
-Qed.
-
-(* what a successful validation means: the payload decodes and equals the token contract's answer *)
-Lemma validate_attest_ok : forall m a t, validate_attest m a = VaOk t ->
-  m_tok m = Some t /\ get_token_info (ti_id t) a = TiOk t.
-Proof.
-  intros m a t. unfold validate_attest. destruct (m_tok m) as [ti|]; [|discriminate].
-  destruct (get_token_info (ti_id ti) a) as [t'| |] eqn:G; try discriminate.
-  destruct (tokinfo_eqb ti t') eqn:E; [|discriminate]. intro H. injection H as <-.
-  apply tokinfo_eqb_eq in E. subst t'. split; [reflexivity|exact G].
 Qed.
 
 (* ------------------------------------------------------------------ handleUnconfirmedEvents: every event is judged on its own *)
@@ -226,147 +210,12 @@ Qed.
 
 End Stream.
 
-(* ================================================================== the structural invariant of the watcher's state *)
-Lemma to_unconfirmed_some : forall e m, to_unconfirmed e = Some m <-> e_index e = alph_wm_event_index /\ e_conv e = Some m.
+(* ================================================================== C09: no loss, no duplicate, no spin, robustness *)
+(* ================================================================== C09: no loss, no duplicate, no spin, robustness *)
+(* a re-observation request never terminates the watcher *)
+Lemma gov_events_no_panic : forall c blk hd tok evs pos, gov_events c blk hd tok pos evs <> GePanic.
 Proof.
-  intros e m. unfold to_unconfirmed. destruct (e_index e =? alph_wm_event_index) eqn:E.
-  - apply Z.eqb_eq in E. tauto.
-  - apply Z.eqb_neq in E. split; [discriminate|tauto].
-Qed.
-
-Definition plist (p : list pblock) : list uevent := flat_map pb_evs p.
-
-Section Safety.
-Variable c : cfg.
-(* provenance predicates, arbitrary: whatever holds for everything the node answered holds for what is forwarded *)
-Variable EP : cevent -> Prop.        (* "is an event of the configured governance contract" *)
-Variable HP : Z -> header -> Prop.   (* HP b h: "h is the header of block b" *)
-Variable AP : mc_ans -> Prop.        (* "is an answer of the node to the token-metadata multicall" *)
-
-Definition op_ok (o : op) : Prop :=
-  match o with
-  | OPoll cnt pg tok => (forall k s evs next, pg k s = Page evs next -> Forall EP evs) /\ (forall i, AP (tok i))
-  | OTick height now mc hd => forall b h, hd b = Some h -> HP b h
-  | OReobs r => (forall evs, r_events r = Some evs -> Forall (fun te => t_addr te = c_gov c -> EP (t_ev te)) evs)
-                /\ (forall b h, r_hd r b = Some h -> HP b h) /\ (forall i, AP (r_tok r i))
-  | _ => True
-  end.
-
-Definition attest_ok (m : wmsg) (ch : option tokinfo) : Prop :=
-  is_attest m = true -> exists t a, ch = Some t /\ m_tok m = Some t /\ AP a /\ get_token_info (ti_id t) a = TiOk t.
-
-Definition ugood (u : uevent) : Prop :=
-  EP (u_ev u) /\ to_unconfirmed (u_ev u) = Some (u_msg u) /\ attest_ok (u_msg u) (u_chain u).
-
-Definition bgood (b : pblock) : Prop :=
-  Forall (fun u => ugood u /\ e_block (u_ev u) = pb_hash b) (pb_evs b) /\ (forall h, pb_hdr b = Some h -> HP (pb_hash b) h).
-
-Definition Inv (s : wstate) : Prop :=
-  (forall l, w_inflight s = Some l -> Forall ugood l) /\ Forall bgood (w_pending s).
-
-Lemma Inv_init : forall from0, Inv (init from0).
-Proof. intro from0. split; [intros l H; discriminate H|constructor]. Qed.
-
-(* ---- polling *)
-Lemma keep1_ugood : forall a e u, EP e -> AP a -> In u (keep1 a e) -> ugood u.
-Proof.
-  intros a e u He Ha H. apply keep1_good in H as (E & (G1 & G2) & G3). unfold ugood. rewrite E. repeat apply conj; auto.
-  - rewrite <- E. exact G1.
-  - intro A. destruct (G2 A) as (t & C1 & C2). destruct (G3 A) as (t' & C1' & C3). assert (t' = t) by congruence. subst t'.
-    exists t, a. auto.
-Qed.
-
-Lemma keep_from_ugood : forall tok evs idx, Forall EP evs -> (forall i, AP (tok i)) -> Forall ugood (keep_from tok idx evs).
-Proof.
-  intros tok evs idx He Ha. apply Forall_forall. intros u H. apply keep_from_in in H as (i & e & I & K).
-  eapply keep1_ugood; [|apply Ha|exact K]. rewrite Forall_forall in He. apply He. exact I.
-Qed.
-
-Lemma page_loop_ugood : forall pg tok count,
-  (forall k s evs next, pg k s = Page evs next -> Forall EP evs) -> (forall i, AP (tok i)) ->
-  forall fuel k cur acc from' batch n, Forall ugood acc -> page_loop pg tok fuel k cur count acc = PBatch from' batch n -> Forall ugood batch.
-Proof.
-  intros pg tok count Hp Ha. induction fuel as [|f IH]; intros k cur acc from' batch n Hacc H; [discriminate|].
-  cbn [page_loop] in H. destruct (pg k cur) as [|evs next] eqn:P; [discriminate|].
-  rewrite handle_unconfirmed_spec in H.
-  assert (G : Forall ugood (acc ++ keep_from tok cur evs)).
-  { apply Forall_app. split; [exact Hacc|]. apply keep_from_ugood; [eapply Hp; exact P|exact Ha]. }
-  destruct (alph_page_exit next count).
-  - injection H as <- <- <-. exact G.
-  - eapply IH; [exact G|exact H].
-Qed.
-
-(* ---- delivering a batch to the event loop *)
-Lemma add_event_bgood : forall p u, Forall bgood p -> ugood u -> Forall bgood (add_event p u).
-Proof.
-  intros p u Hp Hu. induction p as [|b t IH]; cbn [add_event].
-  - constructor; [|constructor]. split; cbn [pb_evs pb_hdr pb_hash]; [|intros h H; discriminate H].
-    constructor; [split; [exact Hu|reflexivity]|constructor].
-  - inversion Hp as [|b' t' Hb Ht]; subst. destruct (pb_hash b =? e_block (u_ev u)) eqn:E.
-    + apply Z.eqb_eq in E. constructor; [|exact Ht]. destruct Hb as [Hb1 Hb2]. split; cbn [pb_evs pb_hdr pb_hash]; [|exact Hb2].
-      apply Forall_app. split; [exact Hb1|]. constructor; [split; [exact Hu|symmetry; exact E]|constructor].
-    + constructor; [exact Hb|apply IH; exact Ht].
-Qed.
-
-Lemma add_batch_bgood : forall l p, Forall bgood p -> Forall ugood l -> Forall bgood (add_batch p l).
-Proof.
-  unfold add_batch. induction l as [|u l IH]; intros p Hp Hl; cbn [fold_left]; [exact Hp|].
-  inversion Hl; subst. apply IH; [apply add_event_bgood; assumption|assumption].
-Qed.
-
-(* ---- height tick *)
-Definition cgood (height now : Z) (mc : Z -> option bool) (x : uevent * header) : Prop :=
-  ugood (fst x) /\ HP (e_block (u_ev (fst x))) (snd x) /\ mc (e_block (u_ev (fst x))) = Some true /\
-  confirmed (c_mainnet c) (u_msg (fst x)) (snd x) now height = true.
-
-Lemma process_block_good : forall height now mc hd b k conf,
-  (forall b h, hd b = Some h -> HP b h) -> bgood b ->
-  process_block (c_mainnet c) height now mc hd b = BOk k conf ->
-  (forall b', k = Some b' -> bgood b') /\ Forall (cgood height now mc) conf.
-Proof.
-  intros height now mc hd b k conf Hhd [Hb1 Hb2] H. unfold process_block in H.
-  destruct (mc (pb_hash b)) as [canon|] eqn:M; [|discriminate].
-  destruct (match pb_hdr b with Some h => Some h | None => hd (pb_hash b) end) as [h|] eqn:Hh; [|discriminate].
-  assert (HPh : HP (pb_hash b) h).
-  { destruct (pb_hdr b) as [h'|] eqn:P; [injection Hh as <-; apply Hb2; reflexivity|apply Hhd; exact Hh]. }
-  injection H as <- <-. split.
-  - intros b' Hk. destruct (filter _ (pb_evs b)) as [|x r] eqn:F; [discriminate|]. injection Hk as <-.
-    split; cbn [pb_evs pb_hdr pb_hash]; [|intros h' Hq; injection Hq as <-; exact HPh].
-    rewrite <- F. apply Forall_forall. intros u Hu. apply filter_In in Hu as [Hu _]. rewrite Forall_forall in Hb1. apply Hb1. exact Hu.
-  - destruct canon; [|constructor]. apply Forall_forall. intros [u h'] Hx. apply in_map_iff in Hx as (u' & Hx & Hu').
-    injection Hx as <- <-. apply filter_In in Hu' as [Hu' Hc]. rewrite Forall_forall in Hb1. destruct (Hb1 _ Hu') as [G E].
-    unfold cgood. cbn [fst snd]. rewrite E. auto.
-Qed.
-
-Lemma process_blocks_good : forall height now mc hd p p' conf,
-  (forall b h, hd b = Some h -> HP b h) -> Forall bgood p ->
-  process_blocks (c_mainnet c) height now mc hd p = Some (p', conf) ->
-  Forall bgood p' /\ Forall (cgood height now mc) conf.
-Proof.
-  intros height now mc hd p. induction p as [|b t IH]; intros p' conf Hhd Hp H; cbn [process_blocks] in H.
-  - injection H as <- <-. split; constructor.
-  - inversion Hp as [|b0 t0 Hb Ht]; subst.
-    destruct (process_block (c_mainnet c) height now mc hd b) as [|k cf] eqn:B; [discriminate|].
-    destruct (process_blocks (c_mainnet c) height now mc hd t) as [[q cf']|] eqn:R; [|discriminate].
-    injection H as <- <-. destruct (IH _ _ Hhd Ht eq_refl) as [I1 I2].
-    destruct (process_block_good _ _ _ _ _ _ _ Hhd Hb B) as [K1 K2]. split.
-    + destruct k as [b'|]; [constructor; [apply K1; reflexivity|exact I1]|exact I1].
-    + apply Forall_app. split; assumption.
-Qed.
-
-(* handleConfirmedEvents never meets an unknown event index: toUnconfirmedEvent has filtered it *)
-Lemma handle_confirmed_noerr : forall height now mc conf, Forall (cgood height now mc) conf ->
-  snd (handle_confirmed (c_bridge c) conf) = false.
-Proof.
-  intros height now mc conf. induction conf as [|[u h] t IH]; intro H; cbn [handle_confirmed]; [reflexivity|].
-  inversion H as [|x t' Hx Ht]; subst. destruct Hx as ((G1 & G2 & G3) & _). cbn [fst] in G2. apply to_unconfirmed_some in G2 as [G2 _].
-  rewrite G2, Z.eqb_refl. specialize (IH Ht). destruct (handle_confirmed (c_bridge c) t) as [f e]. cbn [snd] in *.
-  destruct (m_sender (u_msg u) =? c_bridge c); exact IH.
-Qed.
-
-Lemma gov_events_no_panic : forall blk hd tok evs pos, gov_events c blk hd tok pos evs <> GePanic.
-Proof.
-  intros blk hd tok evs. induction evs as [|te t IH]; intro pos; cbn [gov_events]; [discriminate|].
+  intros c blk hd tok evs. induction evs as [|te t IH]; intro pos; cbn [gov_events]; [discriminate|].
   destruct (negb (e_index (t_ev te) =? alph_wm_event_index)); [apply IH|].
   destruct (alph_reobs_addr_filter && negb (t_addr te =? c_gov c)); [apply IH|].
   destruct (alph_reobs_block_filter && negb (e_block (t_ev te) =? blk)); [apply IH|].
@@ -378,227 +227,14 @@ Proof.
   - destruct (gov_events c blk hd tok (pos + 1) t); cbn [ge_cons]; congruence.
 Qed.
 
-Lemma reobserve_flag : forall r, snd (reobserve c r) = FNone.
+Lemma reobserve_flag : forall c r, snd (reobserve c r) = FNone.
 Proof.
-  intro r. unfold reobserve. destruct (negb (r_chain r =? alph_chain_id)); [reflexivity|].
+  intros c r. unfold reobserve. destruct (negb (r_chain r =? alph_chain_id)); [reflexivity|].
   destruct (negb (r_txlen r =? alph_txid_len)); [reflexivity|].
   destruct (r_status r) as [[blk|]|]; try reflexivity. destruct (r_events r) as [evs|]; [|reflexivity].
-  pose proof (gov_events_no_panic blk (r_hd r) (r_tok r) evs 0) as P.
+  pose proof (gov_events_no_panic c blk (r_hd r) (r_tok r) evs 0) as P.
   destruct (gov_events c blk (r_hd r) (r_tok r) 0 evs); try reflexivity; [congruence|].
   destruct (r_mc r) as [[|]|]; try reflexivity. destruct (r_height r); reflexivity.
-Qed.
-
-(* ---- one step preserves the invariant (a re-observation request never touches the watcher's state) *)
-Definition op_ok_st (o : op) : Prop := match o with OReobs _ => True | _ => op_ok o end.
-
-Lemma op_ok_st_of : forall o, op_ok o -> op_ok_st o.
-Proof. intros o H. destruct o; exact H || exact I. Qed.
-
-Theorem step_inv : forall s o, Inv s -> op_ok_st o -> Inv (fst (step c s o)).
-Proof.
-  intros s o HI Hok. pose proof HI as [I1 I2]. unfold step. destruct (w_dead s) eqn:D; [exact HI|].
-  assert (Hdie : Inv (die s)) by (split; [exact I1|exact I2]).
-  destruct o as [cnt pg tok| |height now mc hd|r|].
-  - destruct (w_inflight s) as [l0|] eqn:F; [exact HI|].
-    destruct Hok as [Hp Ha].
-    destruct (poll cnt pg tok (w_from s)) as [|from' batch n| | |] eqn:P; cbn [fst]; try (exact HI || exact Hdie).
-    split; cbn [w_inflight w_pending]; [|exact I2].
-    intros l Hl. injection Hl as <-. unfold poll in P. destruct cnt as [count|]; [|discriminate].
-    destruct (count =? w_from s); [discriminate|].
-    eapply page_loop_ugood; [exact Hp|exact Ha| |exact P]. constructor.
-  - destruct (w_inflight s) as [l|] eqn:F; cbn [fst]; [|exact HI].
-    split; cbn [w_inflight w_pending]; [intros l' H; discriminate H|].
-    apply add_batch_bgood; [exact I2|apply (proj1 HI); exact F].
-  - destruct (process_blocks (c_mainnet c) height now mc hd (w_pending s)) as [[p' conf]|] eqn:R; [|exact Hdie].
-    destruct (process_blocks_good _ _ _ _ _ _ _ Hok I2 R) as [G1 G2].
-    destruct (handle_confirmed (c_bridge c) conf) as [f err]. cbn [fst].
-    split; cbn [w_inflight w_pending]; assumption.
-  - destruct (reobserve c r) as [f fl]. cbn [fst]. destruct fl; exact HI || exact Hdie.
-  - exact Hdie.
-Qed.
-
-End Safety.
-
-(* ================================================================== accounting: nothing is forwarded twice *)
-Definition cnt (p : uevent -> bool) (l : list uevent) : nat := length (filter p l).
-Definition fwd_u (f : fwd) : uevent := {| u_ev := f_ev f; u_msg := f_msg f; u_chain := f_chain f |}.
-
-Lemma fwd_u_mkfwd : forall u h, fwd_u (mkfwd u h) = u.
-Proof. intros [e m ch] h. reflexivity. Qed.
-
-Lemma cnt_app : forall p a b, cnt p (a ++ b) = (cnt p a + cnt p b)%nat.
-Proof. intros. unfold cnt. rewrite filter_app, app_length. reflexivity. Qed.
-
-Lemma cnt_filter_split : forall p f l, (cnt p (filter f l) + cnt p (filter (fun x => negb (f x)) l) = cnt p l)%nat.
-Proof.
-  intros p f l. unfold cnt. induction l as [|x l IH]; [reflexivity|]. cbn [filter].
-  destruct (f x); cbn [negb filter]; destruct (p x); cbn [length]; lia.
-Qed.
-
-Lemma cnt_filter_le : forall p f l, (cnt p (filter f l) <= cnt p l)%nat.
-Proof. intros p f l. pose proof (cnt_filter_split p f l). lia. Qed.
-
-Lemma plist_add_event : forall p P u, cnt p (plist (add_event P u)) = (cnt p (plist P) + cnt p [u])%nat.
-Proof.
-  intros p P u. induction P as [|b t IH]; cbn [add_event].
-  - unfold plist. cbn [flat_map pb_evs]. rewrite app_nil_r. reflexivity.
-  - destruct (pb_hash b =? e_block (u_ev u)).
-    + unfold plist. cbn [flat_map pb_evs]. rewrite !cnt_app. lia.
-    + unfold plist in *. cbn [flat_map]. rewrite !cnt_app, IH. lia.
-Qed.
-
-Lemma plist_add_batch : forall p l P, cnt p (plist (add_batch P l)) = (cnt p (plist P) + cnt p l)%nat.
-Proof.
-  intros p l. unfold add_batch. induction l as [|u l IH]; intro P; cbn [fold_left].
-  - unfold cnt at 3. cbn. lia.
-  - rewrite IH, plist_add_event. change (u :: l) with ([u] ++ l). rewrite cnt_app. lia.
-Qed.
-
-Lemma process_block_count : forall p mn height now mc hd b k conf,
-  process_block mn height now mc hd b = BOk k conf ->
-  (cnt p (map fst conf) + cnt p (match k with Some b' => pb_evs b' | None => [] end) <= cnt p (pb_evs b))%nat.
-Proof.
-  intros p mn height now mc hd b k conf H. unfold process_block in H.
-  destruct (mc (pb_hash b)) as [canon|]; [|discriminate].
-  destruct (match pb_hdr b with Some h => Some h | None => hd (pb_hash b) end) as [h|]; [|discriminate].
-  injection H as <- <-.
-  pose proof (cnt_filter_split p (fun u => confirmed mn (u_msg u) h now height) (pb_evs b)) as S.
-  set (remain := filter (fun u => negb (confirmed mn (u_msg u) h now height)) (pb_evs b)) in *.
-  assert (K : cnt p (match (match remain with [] => None | _ :: _ => Some {| pb_hash := pb_hash b; pb_hdr := Some h; pb_evs := remain |} end) with
-                     | Some b' => pb_evs b' | None => [] end) = cnt p remain) by (destruct remain; reflexivity).
-  rewrite K. destruct canon.
-  - rewrite map_map. cbn [fst]. rewrite map_id. lia.
-  - cbn [map]. unfold cnt at 1. cbn. lia.
-Qed.
-
-Lemma process_blocks_count : forall p mn height now mc hd P P' conf,
-  process_blocks mn height now mc hd P = Some (P', conf) ->
-  (cnt p (map fst conf) + cnt p (plist P') <= cnt p (plist P))%nat.
-Proof.
-  intros p mn height now mc hd P. induction P as [|b t IH]; intros P' conf H; cbn [process_blocks] in H.
-  - injection H as <- <-. cbn. lia.
-  - destruct (process_block mn height now mc hd b) as [|k cf] eqn:B; [discriminate|].
-    destruct (process_blocks mn height now mc hd t) as [[q cf']|] eqn:R; [|discriminate].
-    injection H as <- <-. specialize (IH _ _ eq_refl). pose proof (process_block_count p _ _ _ _ _ _ _ _ B) as C.
-    rewrite map_app, cnt_app. unfold plist in *. cbn [flat_map]. rewrite cnt_app.
-    destruct k as [b'|]; cbn [flat_map]; rewrite ?cnt_app; lia.
-Qed.
-
-Lemma handle_confirmed_count : forall p br conf,
-  (cnt p (map fwd_u (fst (handle_confirmed br conf))) <= cnt p (map fst conf))%nat.
-Proof.
-  intros p br conf. induction conf as [|[u h] t IH]; cbn [handle_confirmed]; [cbn; lia|].
-  destruct (e_index (u_ev u) =? alph_wm_event_index); [|cbn [fst map]; unfold cnt at 1; cbn; lia].
-  destruct (handle_confirmed br t) as [f e]. cbn [fst] in *. cbn [map fst].
-  change (u :: map fst t) with ([u] ++ map fst t). rewrite cnt_app.
-  destruct (m_sender (u_msg u) =? br); cbn [fst map]; [|lia].
-  rewrite fwd_u_mkfwd. change (u :: map fwd_u f) with ([u] ++ map fwd_u f). rewrite cnt_app. lia.
-Qed.
-
-(* what the watcher holds: pending events plus the batch in flight between fetchEvents and the event loop *)
-Definition held (s : wstate) : list uevent := plist (w_pending s) ++ match w_inflight s with Some l => l | None => [] end.
-(* messages forwarded by the polling path in a step *)
-Definition tick_fwd (o : op) (x : out) : list uevent := match o with OTick _ _ _ _ => map fwd_u (o_fwd x) | _ => [] end.
-
-Lemma held_die : forall s, held (die s) = held s.
-Proof. reflexivity. Qed.
-Lemma cnt_nil : forall p, cnt p [] = 0%nat.
-Proof. reflexivity. Qed.
-
-Lemma step_count : forall c p s o,
-  (cnt p (tick_fwd o (snd (step c s o))) + cnt p (held (fst (step c s o))) <= cnt p (held s) + cnt p (o_batch (snd (step c s o))))%nat.
-Proof.
-  intros c p s o. unfold step.
-  assert (Triv : forall o', (cnt p (tick_fwd o' out0) + cnt p (held s) <= cnt p (held s) + cnt p (o_batch out0))%nat).
-  { intro o'. destruct o'; cbn [tick_fwd out0 o_fwd o_batch map]; rewrite ?cnt_nil; lia. }
-  destruct (w_dead s); [apply Triv|].
-  destruct o as [cn pg tok| |height now mc hd|r|].
-  - destruct (w_inflight s) as [l0|] eqn:F; [apply Triv|].
-    destruct (poll cn pg tok (w_from s)) as [|from' batch n| | |];
-      [apply (Triv (OPoll cn pg tok))| |cbn [fst snd tick_fwd o_batch]; rewrite held_die, !cnt_nil; lia ..].
-    cbn [fst snd tick_fwd o_batch]. unfold held. cbn [w_pending w_inflight]. rewrite F, !cnt_app, cnt_nil. lia.
-  - destruct (w_inflight s) as [l|] eqn:F; [|apply Triv]. cbn [fst snd tick_fwd o_batch out0].
-    unfold held. cbn [w_pending w_inflight]. rewrite F, !cnt_app, plist_add_batch, !cnt_nil. lia.
-  - destruct (process_blocks (c_mainnet c) height now mc hd (w_pending s)) as [[p' conf]|] eqn:R.
-    + pose proof (process_blocks_count p _ _ _ _ _ _ _ _ R) as C. pose proof (handle_confirmed_count p (c_bridge c) conf) as Hc.
-      destruct (handle_confirmed (c_bridge c) conf) as [f err]. cbn [fst snd tick_fwd o_fwd o_batch] in *.
-      unfold held. cbn [w_pending w_inflight]. rewrite !cnt_app, cnt_nil. lia.
-    + cbn [fst snd tick_fwd o_fwd o_batch map]. rewrite held_die, !cnt_nil. lia.
-  - destruct (reobserve c r) as [f fl]. cbn [fst snd tick_fwd o_batch]. destruct fl; rewrite ?held_die, !cnt_nil; lia.
-  - cbn [fst snd tick_fwd o_batch]. rewrite held_die, !cnt_nil. lia.
-Qed.
-
-(* the batches produced and the messages forwarded on the polling path along a history *)
-Fixpoint batches (c : cfg) (s : wstate) (ops : list op) : list uevent :=
-  match ops with [] => [] | o :: t => o_batch (snd (step c s o)) ++ batches c (fst (step c s o)) t end.
-Fixpoint tick_fwds (c : cfg) (s : wstate) (ops : list op) : list uevent :=
-  match ops with [] => [] | o :: t => tick_fwd o (snd (step c s o)) ++ tick_fwds c (fst (step c s o)) t end.
-Fixpoint final (c : cfg) (s : wstate) (ops : list op) : wstate :=
-  match ops with [] => s | o :: t => final c (fst (step c s o)) t end.
-
-Theorem forwarded_at_most_fetched : forall c p ops s,
-  (cnt p (tick_fwds c s ops) + cnt p (held (final c s ops)) <= cnt p (held s) + cnt p (batches c s ops))%nat.
-Proof.
-  intros c p ops. induction ops as [|o t IH]; intro s; cbn [tick_fwds batches final]; [cbn; lia|].
-  rewrite !cnt_app. specialize (IH (fst (step c s o))). pose proof (step_count c p s o). lia.
-Qed.
-
-Lemma run_final : forall c ops s, snd (run c s ops) = final c s ops.
-Proof.
-  intros c ops. induction ops as [|o t IH]; intro s; cbn [run final]; [reflexivity|].
-  destruct (step c s o) as [s' x]. cbn [fst]. specialize (IH s'). destruct (run c s' t) as [xs s'']. cbn [snd] in *. exact IH.
-Qed.
-
-(* ================================================================== the block poller stays enabled while events are pending *)
-Lemma process_blocks_nil : forall mn height now mc hd P conf, process_blocks mn height now mc hd P = Some ([], conf) -> P = [] \/ P <> [].
-Proof. intros. destruct P; [left; reflexivity|right; discriminate]. Qed.
-
-Lemma add_batch_nonempty : forall l P, add_batch P l <> [] -> P <> [] \/ l <> [].
-Proof. intros l P H. destruct l; [left; exact H|right; discriminate]. Qed.
-
-Definition poller_inv (s : wstate) : Prop := w_pending s <> [] -> w_enabled s = true.
-
-Lemma step_poller : forall c s o, poller_inv s -> poller_inv (fst (step c s o)).
-Proof.
-  intros c s o I. unfold step. destruct (w_dead s); [exact I|].
-  destruct o as [cn pg tok| |height now mc hd|r|].
-  - destruct (w_inflight s); [exact I|]. destruct (poll cn pg tok (w_from s)); exact I.
-  - destruct (w_inflight s) as [l|]; [|exact I]. cbn [fst]. unfold poller_inv. cbn [w_pending w_enabled].
-    intro H. destruct l as [|u l]; cbn [is_nil]; [|reflexivity]. apply I. exact H.
-  - destruct (process_blocks (c_mainnet c) height now mc hd (w_pending s)) as [[p' conf]|] eqn:R; [|exact I].
-    destruct (handle_confirmed (c_bridge c) conf) as [f err]. cbn [fst]. unfold poller_inv. cbn [w_pending w_enabled].
-    intro H. destruct p' as [|b p']; [congruence|]. cbn [is_nil]. apply I. destruct (w_pending s); [|discriminate].
-    cbn [process_blocks] in R. discriminate.
-  - destruct (reobserve c r) as [f fl]. destruct fl; exact I.
-  - exact I.
-Qed.
-
-Theorem poller_enabled_while_pending : forall c ops from0, poller_inv (final c (init from0) ops).
-Proof.
-  intros c ops from0. assert (G : forall s, poller_inv s -> poller_inv (final c s ops)).
-  { induction ops as [|o t IH]; intros s I; cbn [final]; [exact I|]. apply IH. apply step_poller. exact I. }
-  apply G. intro H. exfalso. apply H. reflexivity.
-Qed.
-
-(* ================================================================== C09: no loss, no duplicate, no spin, robustness *)
-Definition NoP1 {A} : A -> Prop := fun _ => True.
-Definition NoP2 {A B} : A -> B -> Prop := fun _ _ => True.
-(* the structural invariant alone (no provenance predicates) *)
-Definition Inv0 : wstate -> Prop := Inv NoP1 NoP2 NoP1.
-
-Lemma op_ok_triv : forall c o, op_ok c NoP1 NoP2 NoP1 o.
-Proof.
-  intros c o. destruct o as [cn pg tok| |height now mc hd|r|]; cbn [op_ok]; unfold NoP1, NoP2; auto.
-  - split; [|auto]. intros k s evs next _. apply Forall_forall. auto.
-  - split; [|auto]. intros evs _. apply Forall_forall. auto.
-Qed.
-
-Lemma step_dead : forall c s o, w_dead s = true -> step c s o = (s, out0).
-Proof. intros c s o H. unfold step. rewrite H. reflexivity. Qed.
-
-Lemma final_dead : forall c ops s, w_dead s = true -> w_dead (final c s ops) = true.
-Proof.
-  intros c ops. induction ops as [|o t IH]; intros s H; cbn [final]; [exact H|]. rewrite step_dead by exact H. cbn [fst]. apply IH. exact H.
 Qed.
 
 Lemma keep_from_ext : forall tok T evs idx, (forall i, tok i = T i) -> keep_from tok idx evs = keep_from T idx evs.
@@ -755,200 +391,4 @@ Proof.
   destruct (count =? from); [exact I|].
   pose proof (page_loop_outcomes pg tok count (poll_fuel from count) 0 from []) as H.
   destruct (page_loop pg tok (poll_fuel from count) 0 from count []); auto.
-Qed.
-
-(* ================================================================== C09: a pending event is forwarded at the first tick at which it is final *)
-Definition pending_in (P : list pblock) (blk : Z) (u : uevent) : Prop :=
-  exists b, In b P /\ pb_hash b = blk /\ In u (pb_evs b).
-
-Lemma add_event_keeps : forall P u' blk u, pending_in P blk u -> pending_in (add_event P u') blk u.
-Proof.
-  intros P u' blk u. induction P as [|b t IH]; intros (b0 & Hb & Hh & Hu); [destruct Hb|]. cbn [add_event].
-  destruct (pb_hash b =? e_block (u_ev u')) eqn:E.
-  - destruct Hb as [<-|Hb].
-    + eexists. split; [left; reflexivity|]. cbn [pb_hash pb_evs]. split; [exact Hh|apply in_or_app; left; exact Hu].
-    + exists b0. split; [right; exact Hb|auto].
-  - destruct Hb as [<-|Hb].
-    + exists b. split; [left; reflexivity|auto].
-    + destruct IH as (b1 & H1 & H2 & H3); [exists b0; auto|]. exists b1. split; [right; exact H1|auto].
-Qed.
-
-Lemma add_batch_keeps : forall l P blk u, pending_in P blk u -> pending_in (add_batch P l) blk u.
-Proof.
-  unfold add_batch. induction l as [|u' l IH]; intros P blk u H; cbn [fold_left]; [exact H|]. apply IH. apply add_event_keeps. exact H.
-Qed.
-
-Lemma handle_confirmed_in : forall br conf u h,
-  Forall (fun x => e_index (u_ev (fst x)) = alph_wm_event_index) conf -> In (u, h) conf -> m_sender (u_msg u) = br ->
-  In (mkfwd u h) (fst (handle_confirmed br conf)).
-Proof.
-  intros br conf u h. induction conf as [|[u0 h0] t IH]; intros Hi Hin Hs; [destruct Hin|]. cbn [handle_confirmed].
-  inversion Hi as [|x t' Hx Ht]; subst x t'. cbn [fst] in Hx. rewrite Hx, Z.eqb_refl.
-  destruct (handle_confirmed br t) as [f e] eqn:R. cbn [fst] in IH.
-  destruct Hin as [Heq|Hin].
-  - injection Heq as -> ->. rewrite Hs, Z.eqb_refl. cbn [fst]. left. reflexivity.
-  - specialize (IH Ht Hin Hs). destruct (m_sender (u_msg u0) =? br); cbn [fst]; [right; exact IH|exact IH].
-Qed.
-
-Section TickLiveness.
-Variable c : cfg.
-Variable H : Z -> header.     (* the header of every block: the node's header answers are consistent with it *)
-Definition HPh : Z -> header -> Prop := fun b h => h = H b.
-Definition InvH : wstate -> Prop := Inv NoP1 HPh NoP1.
-Definition okH (o : op) : Prop := match o with OTick _ _ _ hd => forall b h, hd b = Some h -> h = H b | _ => True end.
-
-Lemma step_InvH : forall s o, InvH s -> okH o -> InvH (fst (step c s o)).
-Proof.
-  intros s o HI Hok. apply (step_inv c NoP1 HPh NoP1 s o HI). destruct o as [cn pg tok| |height now mc hd|r|]; cbn [op_ok_st op_ok]; try exact I.
-  - split; [|unfold NoP1; auto]. intros k s0 evs next _. apply Forall_forall. unfold NoP1. auto.
-  - exact Hok.
-Qed.
-
-Lemma process_block_live : forall height now mc hd b k conf,
-  (forall b h, hd b = Some h -> h = H b) -> bgood NoP1 HPh NoP1 b ->
-  process_block (c_mainnet c) height now mc hd b = BOk k conf ->
-  forall u, In u (pb_evs b) ->
-  (confirmed (c_mainnet c) (u_msg u) (H (pb_hash b)) now height = false ->
-     exists b', k = Some b' /\ pb_hash b' = pb_hash b /\ In u (pb_evs b')) /\
-  (confirmed (c_mainnet c) (u_msg u) (H (pb_hash b)) now height = true -> mc (pb_hash b) = Some true -> In (u, H (pb_hash b)) conf).
-Proof.
-  intros height now mc hd b k conf Hhd [Hb1 Hb2] R u Hu. unfold process_block in R.
-  destruct (mc (pb_hash b)) as [canon|] eqn:M; [|discriminate].
-  destruct (match pb_hdr b with Some h => Some h | None => hd (pb_hash b) end) as [h|] eqn:Hh; [|discriminate].
-  assert (Eh : h = H (pb_hash b)).
-  { destruct (pb_hdr b) as [h'|] eqn:P; [injection Hh as <-; apply Hb2; reflexivity|apply Hhd; exact Hh]. }
-  subst h. injection R as <- <-. split.
-  - intro Hc. assert (Hin : In u (filter (fun u0 => negb (confirmed (c_mainnet c) (u_msg u0) (H (pb_hash b)) now height)) (pb_evs b))).
-    { apply filter_In. split; [exact Hu|rewrite Hc; reflexivity]. }
-    destruct (filter (fun u0 => negb (confirmed (c_mainnet c) (u_msg u0) (H (pb_hash b)) now height)) (pb_evs b)) as [|x r] eqn:F; [destruct Hin|].
-    eexists. split; [reflexivity|]. cbn [pb_hash pb_evs]. split; [reflexivity|exact Hin].
-  - intros Hc Hm. injection Hm as ->. apply in_map_iff. exists u. split; [reflexivity|]. apply filter_In. auto.
-Qed.
-
-Lemma process_blocks_live : forall height now mc hd P P' conf,
-  (forall b h, hd b = Some h -> h = H b) -> Forall (bgood NoP1 HPh NoP1) P ->
-  process_blocks (c_mainnet c) height now mc hd P = Some (P', conf) ->
-  forall blk u, pending_in P blk u ->
-  (confirmed (c_mainnet c) (u_msg u) (H blk) now height = false -> pending_in P' blk u) /\
-  (confirmed (c_mainnet c) (u_msg u) (H blk) now height = true -> mc blk = Some true -> In (u, H blk) conf).
-Proof.
-  intros height now mc hd P. induction P as [|b t IH]; intros P' conf Hhd HP R blk u (b0 & Hb & Hh & Hu); [destruct Hb|].
-  cbn [process_blocks] in R. inversion HP as [|b' t' Hbg Htg]; subst.
-  destruct (process_block (c_mainnet c) height now mc hd b) as [|k cf] eqn:B; [discriminate|].
-  destruct (process_blocks (c_mainnet c) height now mc hd t) as [[q cf']|] eqn:R'; [|discriminate].
-  injection R as <- <-. destruct Hb as [<-|Hb].
-  - destruct (process_block_live _ _ _ _ _ _ _ Hhd Hbg B u Hu) as [L1 L2]. split.
-    + intro Hc. destruct (L1 Hc) as (b' & -> & E1 & E2). exists b'. split; [left; reflexivity|auto].
-    + intros Hc Hm. apply in_or_app. left. apply L2; assumption.
-  - destruct (IH _ _ Hhd Htg eq_refl (pb_hash b0) u) as [L1 L2]; [exists b0; auto|]. split.
-    + intro Hc. destruct (L1 Hc) as (b' & E0 & E1 & E2). exists b'. split; [destruct k; [right|]; exact E0|auto].
-    + intros Hc Hm. apply in_or_app. right. apply L2; assumption.
-Qed.
-
-Lemma step_keeps_pending : forall s o blk u, InvH s -> okH o -> w_dead (fst (step c s o)) = false ->
-  pending_in (w_pending s) blk u ->
-  (forall height now mc hd, o = OTick height now mc hd -> confirmed (c_mainnet c) (u_msg u) (H blk) now height = false) ->
-  pending_in (w_pending (fst (step c s o))) blk u.
-Proof.
-  intros s o blk u HI Hok Dd Hp Hnc. pose proof HI as [I1 I2]. revert Dd. unfold step. destruct (w_dead s); [intros _; exact Hp|].
-  destruct o as [cn pg tok| |height now mc hd|r|].
-  - destruct (w_inflight s); [intros _; exact Hp|]. destruct (poll cn pg tok (w_from s)); intros _; exact Hp.
-  - destruct (w_inflight s) as [l|]; [|intros _; exact Hp]. intros _. cbn [fst w_pending]. apply add_batch_keeps. exact Hp.
-  - destruct (process_blocks (c_mainnet c) height now mc hd (w_pending s)) as [[P' conf]|] eqn:R; [|cbn [fst die w_dead]; discriminate].
-    destruct (process_blocks_live _ _ _ _ _ _ _ Hok I2 R blk u Hp) as [L1 _].
-    destruct (handle_confirmed (c_bridge c) conf) as [f err]. intros _. cbn [fst w_pending]. apply L1. eapply Hnc. reflexivity.
-  - destruct (reobserve c r) as [f fl]. destruct fl; intros _; exact Hp.
-  - cbn [fst die w_dead]. discriminate.
-Qed.
-
-Lemma step_forwards : forall s height now mc hd blk u, InvH s -> okH (OTick height now mc hd) ->
-  w_dead (fst (step c s (OTick height now mc hd))) = false ->
-  pending_in (w_pending s) blk u -> m_sender (u_msg u) = c_bridge c ->
-  confirmed (c_mainnet c) (u_msg u) (H blk) now height = true -> mc blk = Some true ->
-  In (mkfwd u (H blk)) (o_fwd (snd (step c s (OTick height now mc hd)))).
-Proof.
-  intros s height now mc hd blk u HI Hok Dd Hp Hs Hc Hm. pose proof HI as [I1 I2]. revert Dd. unfold step.
-  destruct (w_dead s) eqn:D; [cbn [fst]; congruence|].
-  destruct (process_blocks (c_mainnet c) height now mc hd (w_pending s)) as [[P' conf]|] eqn:R; [|cbn [fst die w_dead]; discriminate].
-  destruct (process_blocks_live _ _ _ _ _ _ _ Hok I2 R blk u Hp) as [_ L2].
-  destruct (process_blocks_good c NoP1 HPh NoP1 _ _ _ _ _ _ _ Hok I2 R) as [G1 G2].
-  assert (Hidx : Forall (fun x => e_index (u_ev (fst x)) = alph_wm_event_index) conf).
-  { eapply Forall_impl; [|exact G2]. intros x ((_ & G & _) & _). apply to_unconfirmed_some in G. tauto. }
-  pose proof (handle_confirmed_in (c_bridge c) conf u (H blk) Hidx (L2 Hc Hm) Hs) as Hin.
-  destruct (handle_confirmed (c_bridge c) conf) as [f err]. intros _. cbn [fst snd o_fwd] in *. exact Hin.
-Qed.
-
-(* the first tick at which the event is final forwards it, whatever else happened before *)
-Theorem pending_forwarded_when_final : forall pre s height now mc hd blk u,
-  InvH s -> Forall okH pre -> okH (OTick height now mc hd) ->
-  w_dead (fst (step c (final c s pre) (OTick height now mc hd))) = false ->
-  pending_in (w_pending s) blk u -> m_sender (u_msg u) = c_bridge c ->
-  (forall h' n' mc' hd', In (OTick h' n' mc' hd') pre -> confirmed (c_mainnet c) (u_msg u) (H blk) n' h' = false) ->
-  confirmed (c_mainnet c) (u_msg u) (H blk) now height = true -> mc blk = Some true ->
-  In (mkfwd u (H blk)) (o_fwd (snd (step c (final c s pre) (OTick height now mc hd)))).
-Proof.
-  induction pre as [|o t IH]; intros s height now mc hd blk u HI Hpre Hok Dd Hp Hs Hnc Hc Hm; cbn [final] in *.
-  - apply step_forwards; assumption.
-  - inversion Hpre as [|o' t' Ho Ht]; subst.
-    assert (D1 : w_dead (fst (step c s o)) = false).
-    { destruct (w_dead (fst (step c s o))) eqn:D1; [|reflexivity]. exfalso.
-      pose proof (final_dead c t _ D1) as D2. rewrite step_dead in Dd by exact D2. cbn [fst] in Dd. congruence. }
-    apply IH; try assumption.
-    + apply step_InvH; assumption.
-    + apply step_keeps_pending; try assumption. intros h' n' mc' hd' E. eapply Hnc. left. exact E.
-    + intros h' n' mc' hd' Hin. eapply Hnc. right. exact Hin.
-Qed.
-
-End TickLiveness.
-
-(* after a height tick nothing that is confirmed remains pending: confirmed events were forwarded or - orphaned block,
-   foreign sender - dropped for good *)
-Lemma process_block_leaves : forall mn height now mc hd b k conf, process_block mn height now mc hd b = BOk k conf ->
-  forall b', k = Some b' -> exists h, pb_hdr b' = Some h /\ Forall (fun u => confirmed mn (u_msg u) h now height = false) (pb_evs b').
-Proof.
-  intros mn height now mc hd b k conf R b' Hk. unfold process_block in R.
-  destruct (mc (pb_hash b)) as [canon|]; [|discriminate].
-  destruct (match pb_hdr b with Some h => Some h | None => hd (pb_hash b) end) as [h|]; [|discriminate].
-  injection R as <- <-. destruct (filter _ (pb_evs b)) as [|x r] eqn:F; [discriminate|]. injection Hk as <-.
-  exists h. cbn [pb_hdr pb_evs]. split; [reflexivity|]. rewrite <- F. apply Forall_forall. intros u Hu.
-  apply filter_In in Hu as [_ Hu]. apply negb_true_iff in Hu. exact Hu.
-Qed.
-
-Lemma process_blocks_leaves : forall mn height now mc hd P P' conf, process_blocks mn height now mc hd P = Some (P', conf) ->
-  Forall (fun b' => exists h, pb_hdr b' = Some h /\ Forall (fun u => confirmed mn (u_msg u) h now height = false) (pb_evs b')) P'.
-Proof.
-  intros mn height now mc hd P. induction P as [|b t IH]; intros P' conf R; cbn [process_blocks] in R.
-  - injection R as <- <-. constructor.
-  - destruct (process_block mn height now mc hd b) as [|k cf] eqn:B; [discriminate|].
-    destruct (process_blocks mn height now mc hd t) as [[q cf']|] eqn:R'; [|discriminate].
-    injection R as <- <-. specialize (IH _ _ eq_refl). destruct k as [b'|]; [|exact IH].
-    constructor; [eapply process_block_leaves; [exact B|reflexivity]|exact IH].
-Qed.
-
-Theorem tick_leaves_only_unconfirmed : forall c s height now mc hd,
-  w_dead (fst (step c s (OTick height now mc hd))) = false ->
-  Forall (fun b' => exists h, pb_hdr b' = Some h /\ Forall (fun u => confirmed (c_mainnet c) (u_msg u) h now height = false) (pb_evs b'))
-         (w_pending (fst (step c s (OTick height now mc hd)))) \/ w_dead s = true.
-Proof.
-  intros c s height now mc hd. unfold step. destruct (w_dead s); [right; reflexivity|]. left.
-  destruct (process_blocks (c_mainnet c) height now mc hd (w_pending s)) as [[P' conf]|] eqn:R; [|cbn [fst die w_dead] in *; discriminate].
-  pose proof (process_blocks_leaves _ _ _ _ _ _ _ _ R) as L. destruct (handle_confirmed (c_bridge c) conf) as [f err]. cbn [fst w_pending]. exact L.
-Qed.
-
-(* ================================================================== reading the justification *)
-(* what GetTokenInfo accepts: the native token, or three succeeded calls with exactly one well-typed return each *)
-Lemma get_token_info_spec : forall id a t, get_token_info id a = TiOk t ->
-  (id = alph_native_id /\ t = {| ti_id := alph_native_id; ti_dec := alph_native_decimals; ti_sym := alph_native_sym; ti_name := alph_native_name |}) \/
-  (exists vs vn vd s n d, a = McRes [COk [vs]; COk [vn]; COk [vd]] /\ to_bytevec vs = Some s /\ to_bytevec vn = Some n /\ to_uint8 vd = Some d /\
-                          t = {| ti_id := id; ti_dec := d; ti_sym := s; ti_name := n |}).
-Proof.
-  intros id a t. unfold get_token_info. destruct (id =? alph_native_id) eqn:E.
-  - intro H. injection H as <-. left. apply Z.eqb_eq in E. auto.
-  - destruct a as [|rs]; [discriminate|]. destruct rs as [|r0 [|r1 [|r2 [|r3 rest]]]]; cbn [length Nat.eqb negb]; try discriminate.
-    rewrite tokinfo_tests_own. unfold shape_test. cbn [nth].
-    destruct r0 as [|[|v0 [|w0 t0]]]; cbn [succeeded negb]; try discriminate.
-    destruct r1 as [|[|v1 [|w1 t1]]]; cbn [succeeded negb]; try discriminate.
-    destruct r2 as [|[|v2 [|w2 t2]]]; cbn [succeeded negb]; try discriminate.
-    destruct (to_bytevec v0) as [s|] eqn:B0; [|discriminate]. destruct (to_bytevec v1) as [n|] eqn:B1; [|discriminate].
-    destruct (to_uint8 v2) as [d|] eqn:B2; [|discriminate]. intro H. injection H as <-. right. exists v0, v1, v2, s, n, d. auto.
 Qed.
